@@ -21,13 +21,21 @@ package stateless
 //@ fnvalue applyPinF.pinF(op)
 //@   modifies rpcN, rpcLastSvc, rpcLastMethod
 
+// a span context is derived from (and cancelled with) the context it was started from
+//@ extern trace.StartSpan(ctx, name, o)
+//@   ensures res1 == uf("spanContextOf", "context.Context", ctx)
+
+// "cancel-and-replace": the IPFS call of an operation runs under that operation's own context, so that cancelling the
+// operation aborts the call in flight
 //@ func (spt *Tracker) pin
 //@   property C05
+//@   at_call rpc.Client.CallContext assert [runs-under-the-operations-context] arg_ctx == uf("spanContextOf", "context.Context", op.ctx)
 //@   ensures rpcN == old(rpcN) + 1 && rpcLastSvc == "IPFSConnector" && rpcLastMethod == "Pin"
 //@   modifies rpcN, rpcLastSvc, rpcLastMethod
 
 //@ func (spt *Tracker) unpin
 //@   property C05
+//@   at_call rpc.Client.CallContext assert [runs-under-the-operations-context] arg_ctx == uf("spanContextOf", "context.Context", op.ctx)
 //@   ensures rpcN == old(rpcN) + 1 && rpcLastSvc == "IPFSConnector" && rpcLastMethod == "Unpin"
 //@   modifies rpcN, rpcLastSvc, rpcLastMethod
 
